@@ -183,7 +183,8 @@ def run_check(pid, tier, seed):
         io = mod.impl(c)
         assert len(io) == len(c['lines']), (c, io)
         impl_out.append(io)
-        lines += ['reset'] + c['lines']
+        tm_ = getattr(mod, 'to_model', None)        # optional: how a protocol line is spelled for the model (e.g. dtypes it does not distinguish)
+        lines += ['reset'] + ([tm_(l) for l in c['lines']] if tm_ else c['lines'])
         owner += [None] + [ci] * len(c['lines'])
     try:
         drv = common.run_driver(lines)
